@@ -1,4 +1,62 @@
 """C01 - filtering is exact."""
+import json
+import os
+
+import ptydrive as P
+import sweep
+
+_EXPORT = {}
+
+
+def cli_job(job):
+    ei, driver = job
+    e = _EXPORT["entries"][ei]
+    lines = _EXPORT["lines"]
+    args = ["--filter", e["query"]] + list(driver)
+    if e["exact"]:
+        args.append("--exact")
+    if e["case"] == 1:
+        args.append("-i")
+    elif e["case"] == 2:
+        args.append("+i")
+    if e["literal"]:
+        args.append("--literal")
+    if e["v1"]:
+        args.append("--algo=v1")
+    if not e["forward"]:
+        args.append("--tiebreak=end")
+    if e["noext"]:
+        args.append("--no-extended")
+    code, out, err = P.run_filter(args, "".join(l + "\n" for l in lines).encode())
+    got = out.decode("utf-8", "replace").split("\n")[:-1]
+    want = [lines[i] for i in (e["match"] or [])]
+    res = dict(evals=1, nt=1 if want else 0)
+    if sorted(got) != sorted(want) or code != (0 if want else 1):
+        miss = sorted(set(want) - set(got))[:5]
+        extra = sorted(set(got) - set(want))[:5]
+        res["violation"] = ("cli:" + ("no-extended" if e["noext"] else "extended"),
+                            {"args": args, "missing": miss, "extra": extra, "exit": code, "want_count": len(want), "got_count": len(got), "stderr": err.decode("utf-8", "replace")[:200]})
+    return res
+
+
+def layer_cli(c, b):
+    """the real binary: every configuration x core queries x the filter drivers (sorted, streaming --no-sort, --sync, --tac)"""
+    L = c.run_layer(b, "TestVerif_C01_export", "cli-export", nshards=1, deadline_s=120, rule="reference sets for the CLI layer")
+    exp = os.path.join(c.work, "out", "cli-export.0.json.export")
+    _EXPORT.update(json.load(open(exp)))
+    fzf = c.build_fzf()
+    P.set_fzf(fzf, c.work + "/pty")
+    drivers = [(), ("--no-sort",), ("--sync",), ("--tac",)]
+    jobs = []
+    for ei, e in enumerate(_EXPORT["entries"]):
+        for di, d in enumerate(drivers):
+            if not c.thorough and (ei + di) % 4:
+                continue
+            jobs.append((ei, d))
+    sweep.run_jobs(c, "cli", cli_job, jobs, deadline_s=c.pick(120, 900),
+                   rule="fzf --filter processes: 96 configurations (mapped to --exact / -i / +i / --literal / --algo / --tiebreak=end / --no-extended) x 70 core queries "
+                        "x 4 filter drivers over %d lines (several chunks): emitted set and exit status == reference" % len(_EXPORT["lines"]))
+
 FILES = ["harness/fzf/c01.go"]
 
 
@@ -23,3 +81,4 @@ def run(c, replay):
     c.run_layer(b, "TestVerif_C01_cache", "cache-histories", deadline_s=c.pick(60, 600),
                 rule="all ordered pairs (q1, q2) of a 62-query core on a shared ChunkCache/pattern cache over >2 full chunks; matches of q2 = reference set; "
                      "transitions = two-step cache histories")
+    layer_cli(c, b)
